@@ -25,6 +25,10 @@ RULE = ("cross_val_score: random scattered datasets (14..34 points, scalar or 2-
         "coordinate, data component and weight component independently has its own MEMORY layout (C, Fortran, transposed view of a transposed "
         "copy, strided view) with the same logical element sequence, while the oracle uses the logical C-order rows; one cross-validator instance "
         "is reused for two consecutive cross_val_score calls (bit-identical). "
+        "Another ~30% of those cases hand verde 1-D containers: each coordinate, data and weight array independently a numpy array or a pandas "
+        "Series whose integer index is permuted, shifted to start at 100, or both (label and position disagree), coordinates in a list or a "
+        "tuple, a single component bare or in a 1-tuple; the oracle uses the positional order of the values. An exception raised by verde on an "
+        "input the oracle handles is a violating case. "
         "score/score_estimator on held-out rows incl. constant data. train_test_split: arrays of distinct values (1-D and 2-D shaped), "
         "with/without weights, 1..3 components, random and blocked (spacing/shape): complementary, aligned, whole blocks. SplineCV: grids with a "
         "unique best, duplicate candidates and exact ties between different candidates (mindist below every distance), weights, scorers, "
@@ -163,13 +167,41 @@ def relayout(flat, shape, how):
     return out
 
 
-class Presenter:
-    """how a case hands its (logically 1-D) arrays to verde: unchanged, or as 2-D grids in which every coordinate,
-    data and weight array independently gets its own memory layout"""
+CONTAINERS = ("numpy", "series-permuted", "series-shifted", "series-permuted-shifted")
 
-    def __init__(self, rnd, shape, ncoord, ncomp):
+
+def recontain(flat, how, rs):
+    """the same values in the same POSITIONAL order inside another container: a numpy array, or a pandas Series whose
+    integer index is a permutation of 0..n-1 (a DataFrame column after sort_values / sample / concat), starts at 100,
+    or both - label-based indexing of such a Series gives other rows than positional indexing"""
+    import pandas as pd
+    a = np.asarray(flat, dtype=float).copy()
+    if how == "numpy":
+        return a
+    n = a.size
+    index = np.arange(n)
+    if "permuted" in how:
+        while n > 1 and np.array_equal(index, np.arange(n)):
+            index = rs.permutation(n)
+    if "shifted" in how:
+        index = index + 100
+    out = pd.Series(a, index=index)
+    assert np.array_equal(np.ravel(out), a)
+    return out
+
+
+class Presenter:
+    """how a case hands its (logically 1-D) arrays to verde: unchanged; as 2-D grids in which every coordinate, data
+    and weight array independently gets its own memory layout; or as 1-D containers in which each array independently
+    is a numpy array or a pandas Series with a non-default integer index (coordinates in a list or a tuple,
+    single components bare or in a 1-tuple)"""
+
+    def __init__(self, rnd, shape, ncoord, ncomp, containers=False):
         self.shape = shape
         self.lay = None
+        self.cont = None
+        self.coords_as_list = False
+        self.wrap1 = False
         if shape is not None:
             while True:
                 self.lay = {"c": [rnd.choice(LAYOUTS) for _ in range(ncoord)],
@@ -179,14 +211,56 @@ class Presenter:
                 # at least one row-major and one column-major array, so that memory order and logical order differ
                 if any(x in ("C", "strided") for x in flat) and any(x in ("F", "TT") for x in self.lay["d"] + self.lay["c"]):
                     break
+        elif containers:
+            self.rs = np.random.RandomState(rnd.randint(0, 2 ** 31 - 1))
+            # half of the cases use permuted indexes only: every label exists, so label-based indexing would silently
+            # return other rows; with a shifted index it would raise
+            palette = CONTAINERS[:2] if rnd.random() < 0.5 else CONTAINERS
+            while True:
+                self.cont = {"c": [rnd.choice(palette) for _ in range(ncoord)],
+                             "d": [rnd.choice(palette) for _ in range(ncomp)],
+                             "w": [rnd.choice(palette) for _ in range(ncomp)]}
+                # at least one Series with a permuted index among coordinates and data
+                if any("permuted" in x for x in self.cont["c"] + self.cont["d"]):
+                    break
+            self.coords_as_list = rnd.random() < 0.4
+            self.wrap1 = ncomp == 1 and rnd.random() < 0.3
 
     def __call__(self, group, arrs):
-        if arrs is None or self.shape is None:
+        if arrs is None:
             return arrs
-        return tuple(relayout(a, self.shape, self.lay[group][i]) for i, a in enumerate(arrs))
+        if self.shape is not None:
+            return tuple(relayout(a, self.shape, self.lay[group][i]) for i, a in enumerate(arrs))
+        if self.cont is not None:
+            out = tuple(recontain(a, self.cont[group][i], self.rs) for i, a in enumerate(arrs))
+            return list(out) if (group == "c" and self.coords_as_list) else out
+        return arrs
+
+    def single(self, t, ncomp):
+        "data / weights argument: a tuple for several components; one component bare or (container variant) in a 1-tuple"
+        if t is None:
+            return None
+        return t[0] if (ncomp == 1 and not self.wrap1) else t
 
     def describe(self):
-        return None if self.shape is None else {"shape": list(self.shape), "layouts": self.lay}
+        if self.shape is not None:
+            return {"shape": list(self.shape), "layouts": self.lay}
+        if self.cont is not None:
+            return {"containers": self.cont, "coordinates_in": "list" if self.coords_as_list else "tuple", "single_component_in_1tuple": self.wrap1}
+        return None
+
+    def suffix(self):
+        return "+grid" if self.shape is not None else ("+series" if self.cont is not None else "")
+
+    def text(self):
+        d = self.describe()
+        return "" if d is None else " presented as %s" % d
+
+
+def error_case(inp, exc, repro, kind):
+    "verde raised on an input the oracle handles: reported as a violating case with the input as replay"
+    inp = dict(inp, error="%s: %s" % (type(exc).__name__, exc))
+    return Case(inp, {"raised": "%s: %s" % (type(exc).__name__, exc)}, "Vboth", repro, kind + "+error")
 
 
 def snapshot(est):
@@ -216,7 +290,8 @@ def cvs_case(rnd, vd, kind):
     weighted = rnd.random() < 0.6
     scoring = rnd.choice([None, None, "r2", "neg_mean_squared_error", "neg_mean_absolute_error", "callable"])
     sc_arg = neg_wmax_scorer if scoring == "callable" else scoring
-    grid = rnd.choice(GRID_SHAPES) if rnd.random() < 0.4 else None
+    mode = rnd.random()
+    grid = rnd.choice(GRID_SHAPES) if mode < 0.35 else None
     for attempt in range(50):
         coords, data, weights, rs = make_data(rnd, ncomp, weighted, n=None if grid is None else grid[0] * grid[1])
         n = coords[0].size
@@ -234,14 +309,20 @@ def cvs_case(rnd, vd, kind):
     else:
         raise RuntimeError("no usable split")
     name, est = make_estimator(rnd, vd, ncomp)
-    pres = Presenter(rnd, grid, 2, ncomp)
-    # what verde is given: the same logical arrays, possibly as 2-D grids with mixed memory layouts; the oracle below
-    # always works on the logical (C-order raveled) rows
-    c_arg, d_arg, w_arg = pres("c", coords), unwrap(pres("d", data), ncomp), unwrap(pres("w", weights), ncomp)
+    pres = Presenter(rnd, grid, 2, ncomp, containers=0.35 <= mode < 0.65)
+    # what verde is given: the same logical arrays, possibly as 2-D grids with mixed memory layouts or as pandas Series
+    # with permuted / shifted integer indexes; the oracle below always works on the logical (positional, C-order) rows
+    c_arg, d_arg, w_arg = pres("c", coords), pres.single(pres("d", data), ncomp), pres.single(pres("w", weights), ncomp)
+    base_inp = {"estimator": name, "cv": cvname, "scoring": scoring, "n": n, "components": ncomp, "weighted": weighted, "presentation": pres.describe()}
+    repro = "# verde.cross_val_score(%s, cv=%s, scoring=%s) on %d random points x %d components%s; see harness/c12.py cvs_case" % (
+        name, cvname, scoring, n, ncomp, pres.text())
     before = snapshot(est)
     with warnings.catch_warnings():
         warnings.simplefilter("ignore")
-        obs = vd.cross_val_score(est, c_arg, d_arg, w_arg, cv=cvf(), scoring=sc_arg)
+        try:
+            obs = vd.cross_val_score(est, c_arg, d_arg, w_arg, cv=cvf(), scoring=sc_arg)
+        except Exception as exc:
+            return error_case(base_inp, exc, repro, kind + ":" + cvkind + pres.suffix())
         is_array = isinstance(obs, np.ndarray)
         obs = [float(s) for s in obs]
         reruns = []
@@ -295,7 +376,7 @@ def cvs_case(rnd, vd, kind):
                 c2 = tuple(c.copy() for c in coords)
                 c2[0][slack] += rs.uniform(-1, 1, slack.size)
                 c2[1][slack] -= rs.uniform(-1, 1, slack.size)
-            probe[k] = float(vd.cross_val_score(est, pres("c", c2), unwrap(pres("d", d2), ncomp), unwrap(pres("w", w2), ncomp), cv=cvf(), scoring=sc_arg)[k])
+            probe[k] = float(vd.cross_val_score(est, pres("c", c2), pres.single(pres("d", d2), ncomp), pres.single(pres("w", w2), ncomp), cv=cvf(), scoring=sc_arg)[k])
             nprobe += 1
         reruns.append(probe)
     untouched = (before == after) and is_array
@@ -303,20 +384,18 @@ def cvs_case(rnd, vd, kind):
     term = "c12_cvs %s %s %s %s %s %s %s %s %s %s" % (
         cN(n), cDt(data), copt_t(weights), cN(METRICS[scoring]), csplits, cDl(obs),
         clist([cDl(r) for r in reruns]), cNl(order), cDl(shuffled), cbool(untouched))
-    inp = {"estimator": name, "cv": cvname, "scoring": scoring, "n": n, "components": ncomp, "weighted": weighted,
-           "data_seed": int(rs.randint(0, 2 ** 31 - 1)), "probed_splits": nprobe, "grid": pres.describe()}
+    inp = dict(base_inp, data_seed=int(rs.randint(0, 2 ** 31 - 1)), probed_splits=nprobe)
     trivial = all(abs(s - 1) < 1e-9 or abs(s) < 1e-12 for s in obs)
     return Case(inp, {"scores": obs, "delayed": reruns[:2], "shuffled_order": order, "untouched": untouched, "delayed_errors": errors}, term,
-                "# verde.cross_val_score(%s, cv=%s, scoring=%s) on %d random points x %d components%s; see harness/c12.py cvs_case" % (
-                    name, cvname, scoring, n, ncomp, "" if grid is None else " as %s grids with memory layouts %s" % (grid, pres.lay)),
-                kind + ":" + cvkind + ("+grid" if grid else ""), nontrivial=not trivial)
+                repro, kind + ":" + cvkind + pres.suffix(), nontrivial=not trivial)
 
 
 def score_case(rnd, vd, kind):
     from verde.base.utils import score_estimator
     ncomp = rnd.choice([1, 1, 2])
     weighted = rnd.random() < 0.6
-    grid = rnd.choice([(2, 3), (2, 4), (3, 4), (2, 5), (3, 5), (4, 3)]) if rnd.random() < 0.4 else None
+    mode = rnd.random()
+    grid = rnd.choice([(2, 3), (2, 4), (3, 4), (2, 5), (3, 5), (4, 3)]) if mode < 0.35 else None
     coords, data, weights, rs = make_data(rnd, ncomp, weighted, n=None if grid is None else rnd.randint(grid[0] * grid[1] + 10, 36))
     constant = kind == "score-constant"
     if constant:
@@ -339,17 +418,20 @@ def score_case(rnd, vd, kind):
         ct, dt, wt = pick(coords, te), pick(data, te), pick(weights, te)
         pred = as_tuple(est.predict(ct))
         # the held-out rows as given to verde: possibly 2-D grids with mixed memory layouts
-        pres = Presenter(rnd, grid, 2, ncomp)
-        cg, dg, wg = pres("c", ct), unwrap(pres("d", dt), ncomp), unwrap(pres("w", wt), ncomp)
-        if scoring is None:
-            obs = float(est.score(cg, dg, wg))
-        else:
-            obs = float(score_estimator(neg_wmax_scorer if scoring == "callable" else scoring, est, cg, dg, wg))
+        pres = Presenter(rnd, grid, 2, ncomp, containers=0.35 <= mode < 0.65)
+        cg, dg, wg = pres("c", ct), pres.single(pres("d", dt), ncomp), pres.single(pres("w", wt), ncomp)
+        inp = {"estimator": name, "scoring": scoring, "n_test": len(te), "components": ncomp, "weighted": weighted, "constant": constant,
+               "data_seed": int(rs.randint(0, 2 ** 31 - 1)), "presentation": pres.describe()}
+        repro = "# %s.score / score_estimator(%s) on held-out rows%s; see harness/c12.py score_case" % (name, scoring, pres.text())
+        try:
+            if scoring is None:
+                obs = float(est.score(cg, dg, wg))
+            else:
+                obs = float(score_estimator(neg_wmax_scorer if scoring == "callable" else scoring, est, cg, dg, wg))
+        except Exception as exc:
+            return error_case(inp, exc, repro, kind + pres.suffix())
     term = "c12_score %s %s %s %s %s" % (cDt(dt), copt_t(wt), cDt(pred), cN(METRICS[scoring]), cD(obs))
-    return Case({"estimator": name, "scoring": scoring, "n_test": len(te), "components": ncomp, "weighted": weighted, "constant": constant,
-                 "data_seed": int(rs.randint(0, 2 ** 31 - 1)), "grid": pres.describe()}, {"score": obs}, term,
-                "# %s.score / score_estimator(%s) on held-out rows%s; see harness/c12.py score_case" % (
-                    name, scoring, "" if grid is None else " as %s grids with memory layouts %s" % (grid, pres.lay)), kind + ("+grid" if grid else ""),
+    return Case(inp, {"score": obs}, term, repro, kind + pres.suffix(),
                 nontrivial=not constant)
 
 
@@ -367,7 +449,8 @@ def _tts_case(rnd, vd, kind):
     blocked = kind == "tts-blocked"
     ncomp = rnd.choice([1, 2, 3])
     weighted = rnd.random() < 0.6
-    two_d = rnd.random() < 0.5
+    mode = rnd.random()
+    two_d = mode < 0.4
     ncoord = rnd.choice([2, 2, 3])
     if two_d:
         r, c = rnd.choice([(3, 4), (4, 5), (2, 6), (5, 5), (6, 3), (3, 7), (5, 4), (2, 9)])
@@ -391,10 +474,21 @@ def _tts_case(rnd, vd, kind):
     shp = (r, c) if two_d else (n,)
     # 2-D inputs: every coordinate, data and weight grid independently gets its own memory layout; the row ids checked
     # in Coq are those of the logical (C-order raveled) sequence
-    pres = Presenter(rnd, shp if two_d else None, ncoord, ncomp)
+    pres = Presenter(rnd, shp if two_d else None, ncoord, ncomp, containers=0.4 <= mode < 0.75)
+    inp = {"n": n, "shape": list(shp), "presentation": pres.describe(), "components": ncomp, "coords": ncoord, "weighted": weighted,
+           "kwargs": {**{k: str(v) for k, v in bkw.items()}, **kw}}
+    repro = "# verde.train_test_split on %d points, %s %s%s; see harness/c12.py tts_case" % (n, bkw, kw, pres.text())
     with warnings.catch_warnings():
         warnings.simplefilter("ignore")
-        train, test = vd.train_test_split(pres("c", coords), unwrap(pres("d", data), ncomp), unwrap(pres("w", weights), ncomp), **bkw, **kw)
+        # the oracle split first: configurations the splitters reject raise here and are regenerated by tts_case
+        if blocked:
+            next(vd.BlockShuffleSplit(n_splits=1, **bkw, **kw).split(np.transpose([coords[0], coords[1]])))
+        else:
+            next(ShuffleSplit(n_splits=1, **kw).split(np.arange(n)))
+        try:
+            train, test = vd.train_test_split(pres("c", coords), pres.single(pres("d", data), ncomp), pres.single(pres("w", weights), ncomp), **bkw, **kw)
+        except Exception as exc:
+            return error_case(inp, exc, repro, kind + pres.suffix())
         if blocked:
             fm = np.transpose([coords[0], coords[1]])
             split = next(vd.BlockShuffleSplit(n_splits=1, **bkw, **kw).split(fm))
@@ -413,10 +507,8 @@ def _tts_case(rnd, vd, kind):
                                       cds(*train), cds(*test))
     if not ok_shape:
         term = "Vboth"
-    return Case({"n": n, "shape": list(shp), "layouts": pres.lay, "components": ncomp, "coords": ncoord, "weighted": weighted, "kwargs": {**{k: str(v) for k, v in bkw.items()}, **kw}},
-                {"train_rows_coord0": [float(v) for v in train[0][0]], "test_rows_coord0": [float(v) for v in test[0][0]]}, term,
-                "# verde.train_test_split on %d points, %s %s%s; see harness/c12.py tts_case" % (
-                    n, bkw, kw, "" if not two_d else " as %s grids with memory layouts %s" % (shp, pres.lay)), kind + ("+grid" if two_d else ""))
+    return Case(inp, {"train_rows_coord0": [float(v) for v in np.asarray(train[0][0])], "test_rows_coord0": [float(v) for v in np.asarray(test[0][0])]},
+                term, repro, kind + pres.suffix())
 
 
 class _Future:
